@@ -290,7 +290,7 @@ func runC16(c *Ctx) {
 					continue
 				}
 				fa, ok := call.Call.Args[0].(*ssa.FieldAddr)
-				if !ok || !sameField(fieldVar(fa.X.Type(), fa.Field), count) {
+				if !ok || !sameField(fieldVar(fa.X.Type(), fa.Field), count) || !ownedBy(fa, "SessionMgr") {
 					continue
 				}
 				m := counterSite(call)
@@ -376,7 +376,7 @@ func runC16(c *Ctx) {
 						continue
 					}
 					fa, ok := call.Call.Args[0].(*ssa.FieldAddr)
-					if !ok || !sameField(fieldVar(fa.X.Type(), fa.Field), ecount) {
+					if !ok || !sameField(fieldVar(fa.X.Type(), fa.Field), ecount) || !ownedBy(fa, "EchoMgr") {
 						continue
 					}
 					switch counterSite(call) {
@@ -607,5 +607,37 @@ func (c *Ctx) checkAcceptGuard(cfg TraceConfig) {
 		c.undecided("C16.accept-guard", cons, fn.Pos(), "no accepted-connection iteration found")
 	} else if ok {
 		c.holds("C16.accept-guard", cons, fn.Pos(), fmt.Sprintf("%d accepted-connection iterations", n))
+	}
+}
+
+// ownedBy: the field access fa goes through an object of the named struct type — directly, or through a struct
+// embedded in it (a counter moved into a base struct shared by the two managers is still each manager's own counter).
+func ownedBy(fa *ssa.FieldAddr, typ string) bool {
+	name := func(t types.Type) string {
+		if p, ok := t.Underlying().(*types.Pointer); ok {
+			t = p.Elem()
+		}
+		if n, ok := t.(*types.Named); ok {
+			return n.Obj().Name()
+		}
+		return ""
+	}
+	if name(fa.X.Type()) == typ {
+		return true
+	}
+	// through embedded structs
+	for x := fa.X; ; {
+		in, ok := x.(*ssa.FieldAddr)
+		if !ok {
+			return false
+		}
+		f := fieldVar(in.X.Type(), in.Field)
+		if f == nil || !f.Embedded() {
+			return false
+		}
+		if name(in.X.Type()) == typ {
+			return true
+		}
+		x = in.X
 	}
 }
